@@ -814,6 +814,7 @@ def oracle(ctx, deep=False, only=None):
             if deep:
                 compare_potential(name, p, gC, "segment", "open-screen")
                 compare_potential(name, p, gB, "bary", "same")
+        ctx.log("oracle: neighbour lists, reference vectors")
         # near-field neighbour lists vs vertex adjacency on the oracle grids (the hypothesis of the theorem)
         for g in (gA, gB, gC):
             El = g.elements
@@ -907,6 +908,7 @@ def _reference_vectors(ctx, api, res, deep, stats):
         except Exception as e:  # noqa
             missing.append(f"two-mesh grids: {type(e).__name__}")
     for name, job in jobs:
+        ctx.log(f"oracle: recorded reference vector {name}")
         try:
             ref = load(name)
         except Exception:  # noqa
